@@ -24,6 +24,7 @@ import concurrent.futures
 import json
 import os
 import random
+import re
 import time
 
 import vlib
@@ -42,8 +43,11 @@ ASSUMPTIONS = [
     "BA: liveness is not checked",
 ]
 
-QUICK_MODELS = [("MC_BA_q1.cfg", 5), ("MC_BA_q2.cfg", 5), ("MC_BA_q3.cfg", 5)]
-THOROUGH_MODELS = [("MC_BA_t1.cfg", 6), ("MC_BA_t2.cfg", 6), ("MC_BA_t3.cfg", 6), ("MC_BA_t4.cfg", 6), ("MC_BA_t5.cfg", 4)]
+# (cfg, TLC workers).  quick: N=3 k<=1 5 steps | N=3 k=2 3 steps | N=4 k<=1 3 steps | N=3 k<=1 7 steps
+# thorough: N=3 k<=2 5 steps | N=3 k=3 3 steps | N=4 k<=1 5 steps | N=3 k<=1 7 steps
+# MC_BA_t4.cfg (N=4, k=2, 3 steps: 3.2 million distinct states, ~10 min on 6 workers) passes too; it is left out of the tiers for time.
+QUICK_MODELS = [("MC_BA_q1.cfg", 4), ("MC_BA_q2.cfg", 5), ("MC_BA_q3.cfg", 5), ("MC_BA_q4.cfg", 4)]
+THOROUGH_MODELS = [("MC_BA_t1.cfg", 5), ("MC_BA_t2.cfg", 6), ("MC_BA_t3.cfg", 5), ("MC_BA_t5.cfg", 3)]
 
 
 def _tlc(ctx, cfg, workers, sub, **kw):
@@ -59,17 +63,19 @@ def _tlc(ctx, cfg, workers, sub, **kw):
 def models(ctx, quick):
     """Exhaustive bounded runs + simulation; returns (results, exported schedules by source)."""
     specs = QUICK_MODELS if quick else THOROUGH_MODELS
-    nsim = 40 if quick else 1500
+    nsim = 40 if quick else 800
     res, scheds = [], []
     with concurrent.futures.ThreadPoolExecutor(max_workers=len(specs) + 1) as ex:
         futs = {}
         for cfg, w in specs:
             futs[ex.submit(_tlc, ctx, cfg, w, "ba_" + cfg[6:-4], timeout=3000, extra=["-seed", str(ctx.seed)])] = cfg
-        futs[ex.submit(_tlc, ctx, "MC_BA_sim.cfg", 1, "ba_sim", timeout=3000, simulate=True,
+        futs[ex.submit(_tlc, ctx, "MC_BA_sim.cfg", 1 if quick else 4, "ba_sim", timeout=3000, simulate=True,
                        extra=["-simulate", "num=%d" % nsim, "-depth", "500", "-seed", str(ctx.seed)])] = "sim"
         for fu in concurrent.futures.as_completed(futs):
             cfg, r = futs[fu], fu.result()
             if cfg == "sim":
+                m = re.findall(r"(\d+) states checked", r.out) or re.findall(r"number of states generated: (\d+)", r.out)
+                r.generated = r.distinct = int(m[-1]) if m else 0
                 if r.error:
                     raise vlib.CheckError("simulation of the BA model failed (model-only, not a verdict): %s\n%s"
                                           % (r.invariant, (r.error or "")[:1500]))
@@ -103,8 +109,26 @@ def pick(scheds, rnd, per_kind, sim_cap):
     return out, kinds
 
 
+def split_after_r2():
+    """Liveness observation kept as a reproducible case (allowed by BA, so it is no verdict): every node votes the block in
+    both reduction steps, two of four nodes see the reduction-two quorum, two time out.  From then on the network is perfect,
+    and still no step of binaryBa ever reaches a quorum: odd steps vote the reduction result again (the value computed in
+    the even step is lost with the re-declared `hash`), so the 2:2 split repeats until MaxSteps ("No consensus")."""
+    s = [{"a": "Start", "n": n} for n in range(1, 5)]
+    for n in (1, 2, 3):
+        s += [{"a": "Deliver", "n": n, "t": "proof", "p": 4}, {"a": "Deliver", "n": n, "t": "block", "p": 4}]
+    s += [{"a": "SortDone", "n": n} for n in range(1, 5)] + [{"a": "GotBlock", "n": n} for n in range(1, 5)]
+    for n in range(1, 5):
+        s += [{"a": "Deliver", "n": n, "t": "vote", "w": w, "s": 253, "v": 4} for w in range(1, 5) if w != n]
+    s += [{"a": "CountOK", "n": n} for n in range(1, 5)]
+    for n in (1, 2):
+        s += [{"a": "Deliver", "n": n, "t": "vote", "w": w, "s": 254, "v": 4} for w in range(1, 5) if w != n] + [{"a": "CountOK", "n": n}]
+    s += [{"a": "CountTimeout", "n": n} for n in (3, 4)]
+    return {"n": 4, "k": 1, "maxsteps": 9, "src": "hand", "kind": "split-after-R2", "sched": s, "drain": "sync"}
+
+
 def hand_cases():
-    res = []
+    res = [split_after_r2()]
     for n in (3, 4):
         for k in range(0, n + 1):
             for ms in (3, 5):
@@ -122,13 +146,16 @@ def random_cases(rnd, count):
     return res
 
 
-def run_driver(ctx, drv, cases_path, ncases, parts):
+def run_driver(ctx, drv, cases_path, ncases, conc):
+    """The cases are spread over short-lived driver processes (a finished case leaves idle goroutines of its handlers
+    behind; a process runs ~120 cases), `conc` of them at a time."""
+    parts = max(conc, (ncases + 119) // 120)
     traces = [ctx.path("ba", "trace_%d.ndjson" % i) for i in range(parts)]
 
     def one(i):
         return vlib.run_driver(ctx, drv, ["-cases", cases_path, "-out", traces[i], "-part", str(i), "-parts", str(parts)], timeout=3000)
 
-    with concurrent.futures.ThreadPoolExecutor(max_workers=parts) as ex:
+    with concurrent.futures.ThreadPoolExecutor(max_workers=conc) as ex:
         procs = list(ex.map(one, range(parts)))
     for p in procs:
         if p.returncode != 0:
@@ -139,7 +166,8 @@ def run_driver(ctx, drv, cases_path, ncases, parts):
             with open(t) as f:
                 for line in f:
                     out.write(line)
-    return trace, [((p.stdout or "").strip().splitlines() or [""])[-1] for p in procs]
+    walls = [float(((p.stdout or "").strip().splitlines() or ["wall=0s"])[-1].split("wall=")[-1].rstrip("s") or 0) for p in procs]
+    return trace, "%d processes, %d at a time, %.0fs of driver time in total, slowest %.1fs" % (parts, conc, sum(walls), max(walls))
 
 
 def split_cases(ctx, trace, max_lines):
@@ -369,8 +397,8 @@ def run(ctx, quick):
     ctx.log("BA: %d cases (%d hand, %d from TLC in %d kinds, %d random)" % (len(cases), len(hand_cases()), len(picked), len(kinds), len(cases) - len(picked) - len(hand_cases())))
 
     # 2. N real engines
-    trace, msgs = run_driver(ctx, drv, cases_path, len(cases), 4 if quick else 8)
-    ctx.log("BA driver: " + "; ".join(msgs))
+    trace, msg = run_driver(ctx, drv, cases_path, len(cases), 4 if quick else 8)
+    ctx.log("BA driver: " + msg)
 
     # 3. the specification judges
     lines, drift, broken = validate(ctx, trace, par=3, chunk=40000 if quick else 120000)
